@@ -25,7 +25,7 @@ META = dict(
     assumptions=["without bases and with equal batch sizes the negative batches reuse the positive permutation, so the last negative batch is as short as the last positive one: accepted (the property speaks of neg_batch_size rows 'started from the training data')"],
 )
 
-_LETTERS2 = [("X", "Y"), ("Y", "X"), ("X", "X"), ("Y", "Y"), ("X", "Z"), ("Z", "X"), ("Y", "Z"), ("Z", "Y")]
+_LETTERS2 = [("X", "Z"), ("Y", "X"), ("Z", "Y"), ("X", "Y"), ("X", "X"), ("Y", "Z"), ("Z", "X"), ("Y", "Y")]  # partly rotated rows first: they are not reference-basis rows
 
 
 class Sel:
@@ -198,7 +198,12 @@ def batching(B, G, kind, N, bs, nbs, epochs=2, form="tensor"):
         G.fact("caller_bases_unchanged", bool((np.asarray(bases).astype(str) == bases_before).all()), "bases after fit")
 
     def tagz(x):
-        return x.z() if isinstance(x, Sel) else z3.IntVal(int(x))
+        if isinstance(x, Sel):
+            return x.z()
+        try:
+            return z3.IntVal(int(x))
+        except (TypeError, ValueError):
+            return z3.IntVal(-999)  # not one of the harness's row tags at all (e.g. a row of the caller's original array)
 
     for e in range(epochs):
         eb = batches[ep_marks[e]:ep_marks[e + 1]]
